@@ -185,6 +185,20 @@ Definition collision (now : Z) (F : list N) (t : Z) (d : list N) (r : option (Z 
 
 Definition old_ok (F : list N) : Prop := F = [] \/ (16 <= length F)%nat.
 
+Lemma reach_le ps : forall s nl, reach s ps nl <= nl.
+Proof.
+  induction ps as [|p r IH]; intros s nl; cbn [reach]; [lia|].
+  specialize (IH (s + 1) nl).
+  destruct (N.ltb_spec (SECT * s) (N.min (N.min p nl) (SECT * (s + 1)))); lia.
+Qed.
+
+(* a record that does not fit into the file is refused (before anything is allocated) *)
+Lemma read_unfit now f : size_fits f = false -> read_from_file now f = None.
+Proof.
+  intros H. destruct (read_from_file now f) as [r|] eqn:E; [|reflexivity].
+  apply read_fits in E. congruence.
+Qed.
+
 Lemma list_eq_dec_N (a b : list N) : {a = b} + {a <> b}.
 Proof. apply list_eq_dec. apply N.eq_dec. Qed.
 
@@ -223,7 +237,18 @@ Proof.
   pose proof (crash_header_old F (new_image t d) ps Hp HF) as EH. fold C in EH.
   pose proof (length_crash_ge F (new_image t d) ps) as LC. fold C in LC.
   destruct (N.leb_spec (2 ^ 31) (hdr_size C)) as [Lh|Lh].
-  - right. left. apply read_huge_hdr_only; [lia|exact HF|exact EH|exact Lh].
+  - (* a size field of 2 GiB or more: the crash state is refused unless the file is that long, and a save of less than
+       2 GiB cannot make it so: then the old file had that length already *)
+    destruct (size_fits C) eqn:Efit; [|left; apply read_unfit; exact Efit].
+    right. left. apply read_huge_hdr_only; [lia|exact HF|exact EH|exact Lh|].
+    rewrite Efit. symmetry. apply size_fits_spec in Efit. destruct Efit as [_ Efit]. apply size_fits_spec.
+    assert (hdr_size C = hdr_size F) as E3 by (rewrite (hdr_size_16 C), (hdr_size_16 F), EH; reflexivity).
+    split; [exact HF|]. rewrite <- E3.
+    assert (length C = length F) as EL; [|rewrite <- EL; exact Efit].
+    clear EH E3. revert Lh Efit. generalize (hdr_size C). intros hs Lh Efit. unfold C in *. rewrite length_crash_file in *. unfold crash_len in *.
+    pose proof (reach_le ps 0 (N.of_nat (length (new_image t d)))) as Hr.
+    rewrite length_new_image in * by exact Hs. unfold small in Hs.
+    change (2 ^ 31) with 2147483648 in *. lia.
   - destruct (read_from_file now C) as [[t' d']|] eqn:ER; [|left; reflexivity].
     destruct (read_spec now C t' d' ER) as (L16 & Et & Hnow & El & Ec & Hd).
     destruct (Hd Lh) as [Ed Lb].
@@ -266,13 +291,15 @@ Proof.
   - destruct (crash_safe_new_header now F t d p r Ht Hd Hs Hp) as [A|[A|A]]; fold res in A; tauto.
 Qed.
 
-(* whatever load returns was cut from inside the file, with the length of the header it lies under *)
+(* whatever load returns has the length of the header it lies under and fits into the file (for every value of the
+   size field, since the repair); below 2 GiB it is cut from inside the file *)
 Lemma read_in_bounds now f t' d' : read_from_file now f = Some (t', d') ->
   (16 <= length f)%nat /\ N.of_nat (length d') = hdr_size f /\ crc32 d' = hdr_crc f /\ (now <= t')%Z /\
-  (hdr_size f < 2 ^ 31 -> (16 + length d' <= length f)%nat /\ d' = firstn (length d') (skipn 16 f)).
+  (16 + length d' <= length f)%nat /\
+  (hdr_size f < 2 ^ 31 -> d' = firstn (length d') (skipn 16 f)).
 Proof.
   intros H. destruct (read_spec now f t' d' H) as (L16 & Et & Hnow & El & Ec & Hd).
-  repeat split; try assumption.
-  - destruct (Hd H0) as [_ Lb]. lia.
-  - destruct (Hd H0) as [Ed _]. rewrite <- El, Nat2N.id in Ed. exact Ed.
+  apply read_fits in H. apply size_fits_spec in H. destruct H as [_ Hf].
+  repeat split; try assumption; [lia|].
+  intros Hlt. destruct (Hd Hlt) as [Ed _]. rewrite <- El, Nat2N.id in Ed. exact Ed.
 Qed.
